@@ -81,6 +81,8 @@ pub struct Dir {
     pub werr: Option<io::ErrorKind>,
     pub wzero: bool,
     pub shutdown_called: bool,
+    /// after an abrupt cut nothing written later may reach the reader (accepted and discarded)
+    pub discard: bool,
     pub vectored: bool,
     pub flush_pending: usize,
     pub out_dec: WireDecoder,
@@ -108,6 +110,7 @@ impl Dir {
             werr: None,
             wzero: false,
             shutdown_called: false,
+            discard: false,
             vectored: false,
             flush_pending: 0,
             out_dec: WireDecoder::new(expect_preface),
@@ -179,6 +182,26 @@ fn run_inline(w: &Shared, kind: &str, ep: usize) {
     g.inline_ops = ops;
 }
 
+/// Dropping the transport closes it: the other side sees EOF once the bytes in flight are read
+/// (h2 drops its transport when the connection object is dropped).
+impl Drop for SimIo {
+    fn drop(&mut self) {
+        let mut g = match self.w.lock() {
+            Ok(g) => g,
+            Err(p) => p.into_inner(),
+        };
+        let d = self.ep;
+        if !g.dirs[d].eof {
+            g.dirs[d].eof = true;
+            g.log(json!({"t": "io_drop", "ep": EP[self.ep]}));
+        }
+        if let Some(wk) = g.dirs[d].rwaker.take() {
+            drop(g);
+            wk.wake();
+        }
+    }
+}
+
 impl AsyncRead for SimIo {
     fn poll_read(self: Pin<&mut Self>, cx: &mut Context<'_>, buf: &mut ReadBuf<'_>) -> Poll<io::Result<()>> {
         run_inline(&self.w, "read", self.ep);
@@ -238,7 +261,9 @@ impl SimIo {
         if let Some(b) = g.dirs[d].wbudget.as_mut() {
             *b -= n;
         }
-        g.dirs[d].inflight.extend(&data[..n]);
+        if !g.dirs[d].discard {
+            g.dirs[d].inflight.extend(&data[..n]);
+        }
         g.dirs[d].total_w += n as u64;
         g.rec.log_io(ep, "wr", json!({"t": "wr", "ep": EP[ep], "n": n}), false);
         let frames = g.dirs[d].out_dec.feed(&data[..n]);
